@@ -35,7 +35,7 @@ STUB_COMPONENTS = ["leaf processors", "RecordingExecutor", "SimClock/SimUUID", "
 ASSUMPTIONS = ["a rewrite is cosmetic iff yaml.safe_load of both texts is type-strictly equal (dict order ignored; sweep "
                "expressions compared up to +/* operand order)", "equality across worlds only; hashes are not re-implemented"]
 REQUIRED_PROBES = ["reused_pipeline_second_traced_run_with_sweep", "history_contains_failing_run", "fresh_interpreter_other_hashseed",
-                   "world_pair_differs_in_cwd", "rewrite_flow_style", "rewrite_float_spelling", "rewrite_expression_commuted", "with_run_space", "history_contains_type_variant_twin", "rewrite_bool_spelling", "long_lived_orchestrator_short_lived_pipelines", "rewrite_aliased_list"]
+                   "world_pair_differs_in_cwd", "rewrite_flow_style", "rewrite_float_spelling", "rewrite_expression_commuted", "with_run_space", "history_contains_type_variant_twin", "rewrite_bool_spelling", "long_lived_orchestrator_short_lived_pipelines", "rewrite_aliased_list", "history_contains_extended_inspect"]
 CONFIG = {
     "quick": {"runs": 640, "budget_s": 240, "timeout_s": 240},
     "thorough": {"runs": 20000, "budget_s": 1700, "timeout_s": 240},
@@ -59,7 +59,14 @@ def generate(rng: random.Random, tier: str, seed: int) -> dict:
         pp = {"coeffs": lst, "weights": (list(lst) if rng.random() < 0.7 else [1.0]), "table": tab}
         if rng.random() < 0.6:
             pp["table2"] = dict(tab)
-        a["nodes"] = a["nodes"] + [{"processor": "SvPoly", "parameters": pp}]
+        node = {"processor": "SvPoly", "parameters": pp}
+        if rng.random() < 0.4:
+            # the mapping-valued parameter is swept over explicit values that are themselves mappings
+            pp.pop("table", None)
+            node["derive"] = {"parameter_sweep": {"parameters": {"table": "tv"}, "collection": "FloatDataCollection", "mode": "combinatorial",
+                                                  "variables": {"tv": {"values": [{"p": float(rng.randint(1, 5)), "q": 0.5, "r": 2.0},
+                                                                                 {"p": 7.0, "q": float(rng.randint(1, 5)), "r": 0.25}]}}}}
+        a["nodes"] = a["nodes"] + [node]
     if rng.random() < 0.25:
         # a `parameters:` key that is present but empty (YAML null) on a node that takes all its parameters from elsewhere
         cand = [n for n in a["nodes"] if "parameters" not in n and "derive" not in n]
@@ -73,7 +80,7 @@ def generate(rng: random.Random, tier: str, seed: int) -> dict:
         hist = []
         for _ in range(rng.randint(0, 6)):
             hist.append(rng.choice(["build_B", "run_B", "run_B_traced", "inspect_B", "run_A_traced", "run_A_traced_reuse",
-                                    "run_A_failing", "build_A", "inspect_A", "run_A", "inspect_twin", "run_twin_traced"]))
+                                    "run_A_failing", "build_A", "inspect_A", "run_A", "inspect_twin", "run_twin_traced", "inspect_A_extended_cli"]))
         sc["worlds"].append({"seed": rng.getrandbits(32), "tz": rng.choice(harness.TZS), "cwd": rng.choice(["", "d1", "d1/d2", "x y"]),
                              "history": hist, "rewrite": rng.getrandbits(32)})
     # one world in ~10 % of the configurations with a sweep: a long-lived orchestrator object serving many short-lived Pipelines
@@ -406,6 +413,13 @@ def _history(ops: list[str], sc: dict, w, stats: dict) -> None:
                 build_inspection_payload({"pipeline": {"nodes": copy.deepcopy(T["nodes"])}})
             else:
                 harness.run_scenario(dict(T, faults=[]), w, trace_mode="file", detail="hash", name=name)
+        elif op == "inspect_A_extended_cli":
+            # `semantiva inspect --extended` on A earlier in the same interpreter (renders the per-node / sweep details)
+            import yaml as _y
+            with open(f"hist_ext_{i}.yaml", "w") as fh:
+                fh.write(_y.safe_dump({"extensions": ["svsim.lib"], "pipeline": {"nodes": copy.deepcopy(A["nodes"])}}, sort_keys=False))
+            harness.run_cli(["inspect", "--extended", f"hist_ext_{i}.yaml"])
+            stats["probe.history_contains_extended_inspect"] = stats.get("probe.history_contains_extended_inspect", 0) + 1
         elif op in ("inspect_A", "inspect_B"):
             from semantiva.inspection import build_inspection_payload
             build_inspection_payload({"pipeline": {"nodes": copy.deepcopy((A if op.endswith("A") else B)["nodes"])}})
